@@ -23,6 +23,7 @@ func checkC10(c *Ctx, r *Report) {
 	e := c.E1()
 	e1Assumptions(r, e)
 	cpyCompleteRule(c, r, "R10d")
+	primitiveCopyRule(c, r)
 	r.Rule("R10a", "Merge/NewFrom/MustNewFrom: the source parameter is not modified and nothing derived from it is stored into the destination, the options or package-level state", 9)
 	type ep struct {
 		fn  *ssa.Function
@@ -299,4 +300,64 @@ func cpyCompleteRule(c *Ctx, r *Report, rule string) {
 	}
 	r.Check(ok, rule, name, "both parts copied", c.Pos(dict[0].call.Pos()), "an execution that copies named entries can also copy indexed entries",
 		"the copy of the dictionary part and the copy of the list part are alternatives: a node holding both (an object merged with a list under one key) loses one part whenever it is copied — every merge re-copies the merged value into its parent")
+}
+
+// primitiveCopyRule (R10e): the copy of a primitive node is a node of the same kind, built by that kind's own
+// constructor from the receiver's payload, the receiver's metadata and the context handed in. A copy that changes
+// kind or payload (a uint copied as an int, a string re-rendered) makes the destination of a merge differ from its
+// source although nothing was merged over it.
+func primitiveCopyRule(c *Ctx, r *Report) {
+	r.Rule("R10e", "cfgBool / cfgInt / cfgUint / cfgFloat / cfgString.cpy return their own constructor applied to (ctx, c.meta(), own payload)", 5)
+	kinds := map[string][2]string{"cfgBool": {"newBool", "b"}, "cfgInt": {"newInt", "i"}, "cfgUint": {"newUint", "u"}, "cfgFloat": {"newFloat", "f"}, "cfgString": {"newString", "s"}}
+	for _, tn := range []string{"cfgBool", "cfgInt", "cfgUint", "cfgFloat", "cfgString"} {
+		t := c.Named("", tn)
+		fn := c.MethodImpl(types.NewPointer(t), "cpy")
+		if fn == nil {
+			r.add("R10e", "ucfg."+tn+".cpy", "same kind, same payload", "-", Undecided, true, "method not found")
+			continue
+		}
+		fn = declared(c, fn)
+		ctor := c.TryFunc("", kinds[tn][0])
+		ok, why := false, "no call of "+kinds[tn][0]
+		for _, ret := range Returns(fn) {
+			for _, s := range append(Sources(RetVal(ret, 0)), RetVal(ret, 0)) {
+				call, isC := s.(*ssa.Call)
+				if !isC || ctor == nil || !IsCallTo(call, ctor) || len(call.Call.Args) != 3 {
+					continue
+				}
+				ctxOK := call.Call.Args[0] == ssa.Value(fn.Params[1])
+				payOK := false
+				if l, isL := call.Call.Args[2].(*ssa.UnOp); isL && l.Op == token.MUL {
+					if fa, isFA := l.X.(*ssa.FieldAddr); isFA && fa.X == ssa.Value(fn.Params[0]) {
+						if _, f, _ := FieldOf(fa); f == kinds[tn][1] {
+							payOK = true
+						}
+					}
+				}
+				metaOK := false
+				for _, ms := range append(Sources(call.Call.Args[1]), call.Call.Args[1]) {
+					if mc, isM := ms.(*ssa.Call); isM && calledName(mc) == "meta" {
+						metaOK = true
+					}
+					if l, isL := ms.(*ssa.UnOp); isL {
+						if _, f, okF := FieldOf(l.X); okF && f == "metadata" {
+							metaOK = true
+						}
+					}
+				}
+				switch {
+				case !ctxOK:
+					why = "the context is not the one handed in"
+				case !payOK:
+					why = "the payload is not the receiver's own " + kinds[tn][1]
+				case !metaOK:
+					why = "the metadata is not the receiver's"
+				default:
+					ok = true
+				}
+			}
+		}
+		r.Check(ok, "R10e", c.FnName(fn), "same kind, same payload", c.Pos(fn.Pos()), kinds[tn][0]+"(ctx, c.meta(), c."+kinds[tn][1]+")",
+			"the copy of a "+tn+" is not built by "+kinds[tn][0]+" from the receiver's own payload, metadata and the new context ("+why+"): a merged setting differs from its source in kind or value")
+	}
 }
